@@ -475,6 +475,8 @@ def rand_case(rng, max_ops=8):
                 ops.append(mkop(o))
         else:
             ops.append(mkop(o))
+    if rng.random() < 0.3:   # the documented use of freeze(): pickle / copy the frozen response
+        ops += [mkop("freeze"), mkop("copy", k=rng.choice(["pickle", "deepcopy"]))]
     return {"init": init, "ops": ops}
 
 
